@@ -182,6 +182,23 @@ def one_case(ctx, rng, spec, prep_exprs, prep_meta, full_exprs, full_meta):
         if np.any(np.abs(np.array(t2) - o['trans']) > cut_slack):
             ctx.violation('order', 'transmittance depends on the order sources were added: %r vs %r'
                           % (list(od), spec['contribs']), replay=rp)
+    # (b') a source added AFTER build() is appended (build() sorts what it finds): every position in the list
+    if len(spec['contribs']) >= 2:
+        from taurex import contributions as CT
+        late = rng.choice(spec['contribs'])
+        rest = [c for c in spec['contribs'] if c != late]
+        try:
+            with np.errstate(all='ignore'):
+                m3 = tmodel.build(spec, order=rest)
+                m3.add_contribution(tmodel.make_contrib(late, spec, CT))
+                t3 = m3.model()[2]
+                pos = [type(c).__name__ for c in m3.contribution_list]
+            if np.any(np.abs(np.array(t3) - o['trans']) > cut_slack):
+                ctx.violation('order', 'transmittance depends on the position of a source in the list: %r (added after '
+                              'build) gives %r, %r gives %r' % (pos, np.array(t3)[0][:3], spec['contribs'], o['trans'][0][:3]),
+                              replay=dict(rp, added_after_build=late))
+        except Exception as e:
+            ctx.violation('order-raises', 'adding %s after build raised %r' % (late, e), replay=dict(rp, added_after_build=late))
     # (c) zero abundance / proportionality
     if 'Absorption' in spec['contribs'] and len(spec['gases']) >= 2:
         g0 = rng.choice(spec['gases'])
